@@ -61,11 +61,15 @@ def make_filter_arg(filters):
     return names[0] if len(names) == 1 else names
 
 
-def rule_callable(rule):
+def rule_callable(rule, shared=False):
+    """rule 5: the observer-based rule - a fresh scorer, or the module-level rule object whose single scorer is
+    shared by every dispatcher it is ever called with"""
     from job_shop_lib.dispatching.rules import (dispatching_rule_factory, score_based_rule,
-                                                MostWorkRemainingScorer)
+                                                MostWorkRemainingScorer, observer_based_most_work_remaining_rule)
     if rule < 5:
         return dispatching_rule_factory(RULE_NAMES[rule])
+    if shared:
+        return observer_based_most_work_remaining_rule
     return score_based_rule(MostWorkRemainingScorer())
 
 
@@ -82,7 +86,7 @@ def run_solve(case):
     def one_run(clock):
         instance = common.build_instance(spec)
         steps = []
-        inner_rule = rule_callable(case["rule"])
+        inner_rule = rule_callable(case["rule"], shared=case["seed"] % 2 == 1)
         inner_chooser = machine_chooser_factory(CHOOSER_NAMES[case["chooser"]])
 
         def rule(dispatcher):
